@@ -86,7 +86,7 @@ type pair struct {
 	tAccept   time.Duration // offset at which the accept is issued
 	tDial     time.Duration
 	size      int
-	late      int // >0: the dialler uses the connection again 6s later with this many bytes
+	late      int    // >0: the dialler uses the connection again 6s later with this many bytes
 	lateMark  string // " after=late-establishment": this or an earlier establishment took (with injected stalls) about as long as the broker's own 5 s timers
 
 	issued   time.Duration
